@@ -126,6 +126,14 @@ impl Check for C18 {
             3 => vec![CallSpec::Setup { problem: 0 }, gen::construct_call(n), CallSpec::SetProblem { problem: 1 }, gen::construct_call(n), big(), CallSpec::SetProblem { problem: 0 }, big()],
             _ => vec![CallSpec::Setup { problem: 1 }, gen::construct_call(n), big(), big()],
         };
+        // the construction deadline may also fall inside a validity query of the last sample's
+        // neighbour sweep (the model reads milestones off the history whatever the deadline did)
+        if rng.chance(0.3) {
+            if let CallSpec::Construct { stalls } = &mut scn.calls[1] {
+                let k = 1 + rng.below(n * 6);
+                stalls.insert(0, Stall { at: Phase::Valid, nth: k, ns: STALL_NS });
+            }
+        }
         if rng.chance(0.45) {
             let anchors = vec![scn.problems[0].starts[0].clone(), scn.problems[0].goal.target.clone(), scn.problems[1].goal.target.clone()];
             let asz = rng.usize_in(4, 10);
